@@ -223,6 +223,65 @@ def discharged_by_path(b, eb, bb, le, re_):
     return True, 'path condition implies %s >= %s on the grid (guards: %s)' % (show(le), show(re_), sorted(gshow)[:2])
 
 
+def _subst(e, amap):
+    if not isinstance(e, tuple):
+        return e
+    if e and e[0] == 'arg' and e[1] in amap:
+        return amap[e[1]]
+    return tuple(_subst(x, amap) if isinstance(x, (tuple, list)) else x for x in e) if not any(isinstance(x, list) for x in e) else \
+        tuple([_subst(y, amap) for y in x] if isinstance(x, list) else (_subst(x, amap) if isinstance(x, tuple) else x) for x in e)
+
+
+def _skeleton(s):
+    """expression text without borrows, re-borrows and auto-deref calls: `len(&*deref(&seq))` and `len(&seq)` (a String read through
+    a &str formal, or directly) have the same skeleton `len(seq)`.  Used only to match a helper's obligation, after substitution of
+    the actual arguments, against the invariant recorded for the caller."""
+    prev = None
+    while prev != s:
+        prev = s
+        s = re.sub(r"\bderef\(([^()]*)\)", r"\1", s)
+        s = re.sub(r"&(mut )?", '', re.sub(r"(^|[(\s,-])\*+(?=[\w(])", r"\1", s))
+    return s.replace('  ', ' ')
+
+
+def _via_callers(facts, b, le, re_, depth=2):
+    """a site in a helper function: for every crate-local call site of the helper (all must be inside the skalo scope), substitute
+    the actual arguments for the formals and look the obligation up under the caller - recorded invariant, or the same question
+    one level further up.  -> [(caller, expression, how)] if every call site is covered, else None."""
+    from ..facts import callers_of
+    if depth == 0 or b.kind == 'Closure':
+        return None
+    callers = callers_of(facts).get(b.name)
+    if not callers:
+        return None
+    out = []
+    for cn in sorted(callers):
+        if not cn.startswith(SCOPE):
+            return None
+        for cb in facts.by_name.get(cn, []):
+            ceb = ExprBuilder(cb, through_vars=False)
+            for bb, t in cb.calls():
+                if (t.callee.name or '') != b.name:
+                    continue
+                amap = {i + 1: ceb.operand(a) for i, a in enumerate(t.args)}
+                l2, r2 = _subst(le, amap), _subst(re_, amap)
+                expr = _norm('%s - %s' % (show(l2), show(r2)))
+                own = _owner(cb.name)
+                inv = next((v for (o, e), v in INVARIANTS.items() if o == own and _skeleton(e) == _skeleton(expr)), None)
+                if inv is not None:
+                    out.append((own.replace(SCOPE, ''), expr, 'recorded invariant'))
+                    continue
+                ok, why = discharged_by_path(cb, ceb, bb, l2, r2)
+                if ok:
+                    out.append((own.replace(SCOPE, ''), expr, 'path condition at the call site'))
+                    continue
+                up = _via_callers(facts, cb, l2, r2, depth - 1)
+                if up is None:
+                    return None
+                out.extend(up)
+    return out or None
+
+
 def check(facts, chk, rule):
     ss = sites(facts)
     chk.floor(rule, 'unsigned subtraction sites in skalo', len(ss), 10)
@@ -242,6 +301,11 @@ def check(facts, chk, rule):
         if inv is not None:
             used.add((_owner(b.name), expr))
             chk.ok(rule, key, t.span, 'data invariant (confirmed by reading): %s' % inv, nontrivial=False)
+            continue
+        moved = _via_callers(facts, b, le, re_)
+        if moved is not None:
+            chk.ok(rule, key, t.span, 'the subtraction sits in a helper; at every call site, with the actual arguments substituted, it is an obligation already discharged '
+                   'for the caller: %s' % '; '.join('%s `%s` (%s)' % m for m in moved), nontrivial=False)
         else:
             chk.violation(rule, key, where=t.span,
                           detail='unsigned subtraction `%s` in %s is neither guarded on its path (%s) nor covered by a recorded data invariant: '
